@@ -13,11 +13,12 @@ def main():
     props = [json.loads(l) for l in open(os.path.join(VERIF, "properties.jsonl"))]
     checks, na = [], []
     pending = json.load(open(os.path.join(VERIF, "harness", "pending.json"))) if os.path.exists(os.path.join(VERIF, "harness", "pending.json")) else {}
+    claimed = json.load(open(os.path.join(VERIF, "harness", "claimed.json")))
     for p in props:
         pid = p["id"]
         hp = os.path.join(VERIF, "harness", pid.lower() + ".py")
-        if not os.path.exists(hp) or pid in pending:
-            na.append({"property_id": pid, "reason": pending.get(pid, "check not built yet in this round; planned at level proof (DESIGN.md section 7)")})
+        if not os.path.exists(hp) or pid in pending or pid not in claimed:
+            na.append({"property_id": pid, "reason": pending.get(pid, "check still being built and validated in this round (Lean model, theorems and harness exist in part); it will be claimed at level proof once it passes on the unchanged tree (DESIGN.md section 7)")})
             continue
         h = importlib.import_module("harness." + pid.lower())
         checks.append({
